@@ -65,6 +65,18 @@ def sec_exttraparea():
     fs = _nested(fn, '_find_solution')
     tr = _nested(fn, '_to_raster')
     cr = _nested(fn, '_calc_ramp_time')
+    # signature: the model takes the system as an explicit argument; the code must take `system=None` and resolve it to the
+    # CURRENT Opts.default inside the body on every call (first statement).  A default bound at import time
+    # (`system=Opts.default`), extra parameters, *args/**kwargs or keyword-only parameters are outside the model: fail closed.
+    sa = fn.args
+    names = [x.arg for x in sa.args]
+    defaults = [unparse(d) for d in sa.defaults]
+    if names != ['area', 'channel', 'grad_start', 'grad_end', 'convert_to_arbitrary', 'system'] \
+            or defaults != ['False', 'None'] or sa.vararg or sa.kwarg or sa.kwonlyargs or getattr(sa, 'posonlyargs', []):
+        raise TranslateError('make_extended_trapezoid_area: signature changed: (%s) defaults %s' % (', '.join(names), defaults))
+    body0 = strip_doc(fn)
+    if not body0 or unparse(body0[0]) != 'if system is None:\n    system = Opts.default':
+        raise TranslateError('make_extended_trapezoid_area: `if system is None: system = Opts.default` must be the first statement')
     f_slew = _factor(fn, 'max_slew', 'max_slew')
     f_grad = _factor(fn, 'max_grad', 'max_grad')
     if unparse(assign_value(fn, 'raster_time')) != 'system.grad_raster_time':
@@ -209,6 +221,11 @@ def sec_exttraparea():
     for frag in need3:
         if frag not in msrc:
             raise TranslateError('make_extended_trapezoid: expected `%s`' % frag)
+    ma_ = m.args
+    mdef = dict(zip([x.arg for x in ma_.args][len(ma_.args) - len(ma_.defaults):], [unparse(d) for d in ma_.defaults]))
+    if mdef.get('system') != 'None' or mdef.get('max_grad') != '0' or mdef.get('max_slew') != '0' \
+            or mdef.get('skip_check') != 'False' or 'if system is None:\n        system = Opts.default' not in msrc:
+        raise TranslateError('make_extended_trapezoid: defaults of system/max_grad/max_slew/skip_check changed: %s' % mdef)
     t4, _ = parse('points_to_waveform.py')
     psrc = unparse(func(t4, 'points_to_waveform'))
     for frag in [
